@@ -16,6 +16,7 @@ import Driver.WaitTrace
 import Driver.LruTrace
 import Driver.PoolTrace
 import Driver.RedisTrace
+import Driver.LruOver
 
 def main (args : List String) : IO UInt32 := do
   match args with
@@ -36,4 +37,5 @@ def main (args : List String) : IO UInt32 := do
   | ["lrutrace"] => Drv.run DrvLruTrace.comp
   | ["pooltrace"] => Drv.run DrvPoolTrace.comp
   | ["redistrace"] => Drv.run DrvRedisTrace.comp
+  | ["lruover"] => Drv.run DrvLruOver.comp
   | _ => IO.eprintln "usage: driver <component>"; return 2
